@@ -29,9 +29,9 @@ FixedCases(x) ==
 
 \* list walkers: concatenations of entries  <<L>> \o payload, payload shorter / equal / longer than L
 EntryLens(x) == IF x = "RequestedNssaiToModels" THEN {0, 1, 2, 3, 4, 5, 6, 8, 9} ELSE {0, 1, 2, 3, 5, 9}
-Entries(x) == {<<L>> \o Fill(p, k) : L \in EntryLens(x), p \in {0, 65},
-                                      k \in {y \in {0, L - 1, L, L + 1} : y >= 0 /\ y <= 10}}
-SmallEntries(x) == {<<L>> \o Fill(65, k) : L \in {0, 1, 2}, k \in {y \in {L - 1, L} : y >= 0}}
+Entries(x) == UNION {{<<L>> \o Fill(p, k) : p \in {0, 65}, k \in {y \in {0, L - 1, L, L + 1} : y >= 0 /\ y <= 10}}
+                     : L \in EntryLens(x)}
+SmallEntries(x) == UNION {{<<L>> \o Fill(65, k) : k \in {y \in {L - 1, L} : y >= 0}} : L \in {0, 1, 2}}
 LoopCases(x) ==
   {<<>>} \cup Entries(x) \cup {a \o b : a, b \in Entries(x)}
   \cup {a \o b \o c : a, b, c \in SmallEntries(x)}
@@ -46,7 +46,7 @@ TextCases ==
          : b \in TextBase, len \in TextLens}
 
 GenCases ==
-  {[h |-> x, text |-> FALSE, in |-> SubSeq(s, 1, Len(s))] : x \in ByteHelpers \ LoopHelpers, s \in FixedCases(x)} \* SubSeq: force a tuple
+  UNION {{[h |-> x, text |-> FALSE, in |-> SubSeq(s, 1, Len(s))] : s \in FixedCases(x)} : x \in ByteHelpers \ LoopHelpers} \* SubSeq: force a tuple
   \cup UNION {{[h |-> x, text |-> FALSE, in |-> s] : s \in LoopCases(x)} : x \in LoopHelpers}
   \cup {[h |-> x, text |-> TRUE, in |-> SubSeq(s, 1, Len(s))] : x \in TextHelpers, s \in TextCases}
 
